@@ -155,3 +155,15 @@ def generic_replay(f, extra_header=''):
         same = any(json.dumps(n['outcome'], sort_keys=True) == json.dumps(obs, sort_keys=True) or str(obs) in json.dumps(n['outcome'])
                    for n in now)
     return (same is not False), dict(definitions=res['defs'], now=now, recorded=obs, reproduced=same, what=f.get('what'))
+
+
+def public_api_failures(groups, records):
+    """Cls.unpack(raw, offset) must show what unpack_impl(raw, offset) shows: same values or the same phase and stack"""
+    out = []
+    for r in records:
+        o = r.get('outcome')
+        if r.get('kind') == 'roundtrip' and isinstance(o, dict) and 'api_differs' in o:
+            out.append(dict(kind='oracle', sig='public-api', what='Cls.unpack(raw, offset) does not report what the parse at that offset reports (values / error positions shifted by the offset)',
+                            classes=class_source(groups, r['group']), cls=decl.cname(r['c']), raw=r['raw'].hex(), offset=r['offset'],
+                            observed=o['api_differs'], required={k: v for k, v in o.items() if k in ('ok', 'err', 'stack', 'exc')}))
+    return out
